@@ -3051,7 +3051,25 @@ impl<'de, 'e> de::Deserializer<'de> for YamlDeserializer<'de, 'e> {
     ///
     /// Note: We still produce a value via `deserialize_any`; true “ignore”
     /// requires `serde::de::IgnoredAny` at the call site.
-    fn deserialize_ignored_any<V: Visitor<'de>>(self, visitor: V) -> Result<V::Value, Self::Error> {
+    #[cfg_attr(
+        not(any(feature = "garde", feature = "validator")),
+        allow(unused_mut)
+    )]
+    fn deserialize_ignored_any<V: Visitor<'de>>(
+        mut self,
+        visitor: V,
+    ) -> Result<V::Value, Self::Error> {
+        // A value requested as `IgnoredAny` (e.g. the value of a key that is not a field of the
+        // target struct) is not part of the deserialized result, so no validation path can refer
+        // to it. Forget the path just recorded for it and do not record anything below it:
+        // otherwise an ignored key spelled like a Rust field name (`first_name` next to the real
+        // `firstName`) would win the exact lookup, and one differing only by case or separators
+        // would make every fuzzy lookup ambiguous.
+        #[cfg(any(feature = "garde", feature = "validator"))]
+        if let Some(recorder) = self.garde.take() {
+            recorder.map.remove(&recorder.current);
+        }
+
         // Delegate to `any`—callers that truly want to ignore should request `IgnoredAny`.
         self.deserialize_any(visitor)
     }
